@@ -3,10 +3,10 @@
 D="$(cd "$1" && pwd)"; shift
 cd /repo || exit 2
 if [ -n "$(git status --short)" ]; then echo "repo not clean"; exit 2; fi
-git apply "$D/patch.diff" 2>/dev/null || git apply --3way "$D/patch.diff" || { echo "SEEDED $D: patch does not apply to the current tree"; git checkout -- .; exit 2; }
+git apply "$D/patch.diff" 2>/dev/null || git apply --3way "$D/patch.diff" || { echo "SEEDED $D: patch does not apply to the current tree"; git reset -q --hard HEAD; exit 2; }
 for P in "$@"; do
   OUT=$(cd /verif && ./check "$P" quick 2>&1); RC=$?
   echo "SEEDED $(basename $(dirname $D))/$(basename $D) -> $P rc=$RC :: $(echo "$OUT" | grep -c '^VIOLATION') violation line(s); $(echo "$OUT" | tail -1)"
   echo "$OUT" | grep '^VIOLATION' | head -4
 done
-git checkout -- . ; git reset -q
+git reset -q --hard HEAD
